@@ -146,7 +146,7 @@ theorem Inv.roll {cfg inp s r a m rest} (h : Inv cfg inp s r a m rest) :
 theorem ensureCapacity_some (s s' : LB) (hle : s.buf.length ≤ s.len) (h : s.ensureCapacity = some s') :
     s'.cfg = s.cfg ∧ s'.buf = s.buf ∧ s'.pos = s.pos ∧ s'.last = s.last ∧ s'.abs = s.abs ∧
       s'.binOff = s.binOff ∧ s'.buf.length < s'.len ∧ s.len ≤ s'.len := by
-  unfold LB.ensureCapacity at h
+  unfold LB.ensureCapacity growBase growFactor at h
   split at h
   · simp only [Option.some.injEq] at h
     subst h
